@@ -1,7 +1,8 @@
 /-
   Orb.Project — model of package project (projections.go, helpers.go), of
   internal/mercator (ToPlanar / ToGeo) and of the tile projection of encoding/mvt
-  (projection.go, Layer.ProjectToTile / ProjectToWGS84).  Core Lean only.
+  (projection.go; layer.go: Layer.ProjectToTile / ProjectToWGS84 and Layers.ProjectTo* as
+  `layerProjectTo*` / `layersProjectTo*`).  Core Lean only.
 
   * `geometryM` is `project.Geometry` with a *stateful* point function (`orb.Projection` is an
     arbitrary Go closure): the state is threaded in the order in which the Go code calls `proj`, so
@@ -254,6 +255,33 @@ def newProjection (F : MFn α) (X Y Z extent : Nat) : TileProj α :=
     pow2Proj F.floor (toPlanar F z) (toGeo F z) (F.ofNat ((X * 2 ^ n) % 2 ^ 64)) (F.ofNat ((Y * 2 ^ n) % 2 ^ 64))
   else
     nonPow2Proj F.floor (toPlanar F Z) (toGeo F Z) (F.ofNat X) (F.ofNat Y) (F.ofNat extent)
+
+/-! ### encoding/mvt/layer.go -/
+
+/-- `orb.Projection` values of `mvt.projection` are pure closures. -/
+def pureP {α : Type} (f : Pt α → Pt α) : Proj Unit α := fun p s => (f p, s)
+
+variable [LE α] [DecidableLE α] [Min α] [Max α]
+
+/-- `Layer.ProjectToTile(tile)`: `p := newProjection(tile, l.Extent)` once, then
+    `for _, f := range l.Features { f.Geometry = project.Geometry(f.Geometry, p.ToTile) }`
+    (a feature's geometry may be the nil interface or a typed nil slice). -/
+def layerProjectToTile (F : MFn α) (X Y Z extent : Nat) (feats : List (GVal α)) : List (GVal α) :=
+  let p := newProjection F X Y Z extent
+  feats.map fun g => (geometryVM (pureP p.toTile) g ()).1
+
+/-- `Layer.ProjectToWGS84(tile)`. -/
+def layerProjectToWGS84 (F : MFn α) (X Y Z extent : Nat) (feats : List (GVal α)) : List (GVal α) :=
+  let p := newProjection F X Y Z extent
+  feats.map fun g => (geometryVM (pureP p.toWGS84) g ()).1
+
+/-- `Layers.ProjectToTile(tile)`: every layer with its own extent (a layer = extent + features). -/
+def layersProjectToTile (F : MFn α) (X Y Z : Nat) (ls : List (Nat × List (GVal α))) : List (Nat × List (GVal α)) :=
+  ls.map fun l => (l.1, layerProjectToTile F X Y Z l.1 l.2)
+
+/-- `Layers.ProjectToWGS84(tile)`. -/
+def layersProjectToWGS84 (F : MFn α) (X Y Z : Nat) (ls : List (Nat × List (GVal α))) : List (Nat × List (GVal α)) :=
+  ls.map fun l => (l.1, layerProjectToWGS84 F X Y Z l.1 l.2)
 
 end merc
 
